@@ -1,0 +1,57 @@
+//go:build verif
+
+// Contracts for the deductive verifier in /verif (govc). This file contains no code: with the
+// build tag off it is not part of the package, with it on it adds nothing to the build.
+package types
+
+//@ import strings "strings"
+//@ import sdk "github.com/cosmos/cosmos-sdk/types"
+//@ import common "github.com/ethereum/go-ethereum/common"
+
+// The proof prefix has its initial value []byte{1} (package-level variables are not reassigned: trust item T4).
+//@ axiom vauth_proof_prefix: len(KeyPrefixProofExternalOwnedAccount) == 1 && cap(KeyPrefixProofExternalOwnedAccount) == 1 && KeyPrefixProofExternalOwnedAccount[0] == 1
+
+// Store key of the proof of an account: 0x01 ++ address bytes. Injective in the address (bcat_split), non-empty,
+// written into a fresh backing array
+// (the shared prefix slice is never appended in place; for an empty address append returns the prefix slice itself).
+//@ ghost func vauthProofKey(a bytes) bytes = bcat(b1(1), a)
+
+//@ func KeyProofExternalOwnedAccountByAddress(accAddr sdk.AccAddress) []byte
+//@   modifies nothing
+//@   ensures[C16.key_layout] len(result) == 1 + len(accAddr) && bsame(bytes(result), vauthProofKey(bytes(accAddr)))
+//@   ensures[C16.key_fresh] len(accAddr) > 0 ==> fresh(base(result))
+//@   panics never
+
+// ---------------------------------------------------------------------------------------------
+// "signature verifies for the account over the module's fixed message"
+// ---------------------------------------------------------------------------------------------
+// hex payload of a 0x-prefixed signature string
+//@ ghost func vauthSigHex(sig string) string = substr(sig, 2, len(sig))
+// well-formed signature text: 0x + valid hex of at least one byte
+//@ ghost func vauthSigText(sig string) bool = len(sig) >= 2 && substr(sig, 0, 2) == "0x" && hexOk(vauthSigHex(sig)) && blen(hexDec(vauthSigHex(sig))) >= 1
+// the address go-ethereum derives from the signature equals common.BytesToAddress(account bytes) — what the code compares
+//@ ghost func vauthSigMatches(account string, sig string) bool = sigSigner(hexDec(vauthSigHex(sig)), MessageToSign) == bytesToAddr(bech32Bytes(account))
+// the signature recovers a public key over keccak256(MessageToSign) whose Ethereum address IS the (20-byte) account:
+// the property's "signature made by the key controlling that address"
+//@ ghost func vauthSigBinds(account string, sig string) bool = bech32Valid(account) && vauthSigText(sig) && sigRecovers(hexDec(vauthSigHex(sig)), MessageToSign) && blen(bech32Bytes(account)) == 20 && sigSigner(hexDec(vauthSigHex(sig)), MessageToSign) == bytesAddr(bech32Bytes(account))
+// canonical text of a 32-byte hash: 0x + lower-case hex, exactly as common.Hash prints it
+//@ ghost func vauthHashText(h string) bool = len(h) >= 2 && substr(h, 0, 2) == "0x" && strings.ToLower(common.HexToHash(h).Hex()) == h
+// the exact acceptance conditions of the two ValidateBasic functions
+//@ ghost func vauthMsgValid(submitter string, account string, sig string) bool = bech32Valid(submitter) && bech32Valid(account) && blen(bech32Bytes(account)) == 20 && bech32Bytes(submitter) != bech32Bytes(account) && vauthSigText(sig) && sigRecovers(hexDec(vauthSigHex(sig)), MessageToSign) && vauthSigMatches(account, sig)
+//@ ghost func vauthProofValid(account string, hash string, sig string) bool = bech32Valid(account) && blen(bech32Bytes(account)) == 20 && vauthHashText(hash) && vauthSigText(sig) && strings.ToLower(sig) == sig && sigRecovers(hexDec(vauthSigHex(sig)), MessageToSign) && vauthSigMatches(account, sig)
+
+//@ func (m *MsgSubmitProofExternalOwnedAccount) ValidateBasic() (err error)
+//@   requires m != nil
+//@   modifies nothing
+//@   ensures[C16.msg_validate_iff] (err == nil) == vauthMsgValid(m.Submitter, m.Account, m.Signature)
+//@   ensures[C16.msg_sig_binds_account] err == nil ==> vauthSigBinds(m.Account, m.Signature)
+//@   ensures[C16.msg_sig_binds_account_20] (err == nil && blen(bech32Bytes(m.Account)) == 20) ==> vauthSigBinds(m.Account, m.Signature)
+//@   panics[C16.msg_validate_never_panics] never
+
+//@ func (m *ProofExternalOwnedAccount) ValidateBasic() (err error)
+//@   requires m != nil
+//@   modifies nothing
+//@   ensures[C16.proof_validate_iff] (err == nil) == vauthProofValid(m.Account, m.Hash, m.Signature)
+//@   ensures[C16.proof_sig_binds_account] err == nil ==> vauthSigBinds(m.Account, m.Signature)
+//@   ensures[C16.proof_sig_binds_account_20] (err == nil && blen(bech32Bytes(m.Account)) == 20) ==> vauthSigBinds(m.Account, m.Signature)
+//@   panics[C16.proof_validate_never_panics] never
